@@ -141,11 +141,20 @@ class WorkerDied(RuntimeError):
     pass
 
 
-def iso_map(fn, tasks):
+class TaskTimedOut(object):
+    """stands for the result of a task that was killed at its wall-clock limit"""
+    def __init__(self, seconds):
+        self.seconds = seconds
+
+
+def iso_map(fn, tasks, task_limit=None):
     """one fresh forked process per task: whatever the code under test leaves behind in a worker (class attributes, module
     globals, caches) cannot reach the next task, so a violation is a function of its task alone and --replay can re-run it.
-    Forked from the main thread with no other pool alive; a worker that dies without a result is an error, never a hang."""
+    Forked from the main thread with no other pool alive; a worker that dies without a result is an error, never a hang.
+    task_limit: seconds of wall clock after which a task is killed and its result is a TaskTimedOut (only the property that owns
+    termination uses it: machine-dependent, a backstop for work the step meter does not see)."""
     import pickle
+    import time as _time
     import select
     import traceback
     close_pool()
@@ -177,14 +186,23 @@ def iso_map(fn, tasks):
                         code = 1
                     os._exit(code)
                 os.close(w)
-                running[r] = (idx, pid, [])
+                running[r] = (idx, pid, [], _time.time())
             ready, _, _ = select.select(list(running), [], [], 10.0)
+            if task_limit:
+                for fd, rec in list(running.items()):
+                    if _time.time() - rec[3] > task_limit:
+                        running.pop(fd)
+                        os.kill(rec[1], 9)
+                        os.waitpid(rec[1], 0)
+                        os.close(fd)
+                        results[rec[0]] = TaskTimedOut(task_limit)
+                ready = [fd for fd in ready if fd in running]
             for fd in ready:
                 piece = os.read(fd, 1 << 20)
                 if piece:
                     running[fd][2].append(piece)
                     continue
-                idx, pid, buf = running.pop(fd)
+                idx, pid, buf, _t0 = running.pop(fd)
                 os.close(fd)
                 _, status = os.waitpid(pid, 0)
                 data = b''.join(buf)
@@ -195,7 +213,7 @@ def iso_map(fn, tasks):
                     raise RuntimeError('task %d raised in its worker:\n%s' % (idx, val))
                 results[idx] = val
     finally:
-        for fd, (idx, pid, buf) in list(running.items()):
+        for fd, (idx, pid, buf, _t0) in list(running.items()):
             try:
                 os.kill(pid, 9)
                 os.waitpid(pid, 0)
@@ -213,10 +231,10 @@ def close_pool():
     _pool = None
 
 
-def pmap(fn, tasks, chunk=None):
+def pmap(fn, tasks, chunk=None, task_limit=None):
     if chunk == 1 and tasks:
         # case-pool tasks (hundreds of cases each): isolated from one another
-        return iso_map(fn, tasks)
+        return iso_map(fn, tasks, task_limit)
     if len(tasks) < 8 or os.environ.get('VERIF_WORKERS') == '1':
         return [fn(t) for t in tasks]
     p = pool()
